@@ -82,7 +82,7 @@ class _Interp1dExact:
         return self.y[:, idx]
 
 
-def h_raman_lumped(ctx, method, order, pumps):
+def h_raman_lumped(ctx, method, order, pumps, positions=(10.0, 25.0)):
     """Raman computation ON with the coupling matrix forced to zero (formal low-power limit): the solver must reduce to the
     plain attenuation and apply every lumped loss exactly once, for every value of the lumped losses"""
     import gnpy.core.science_utils as su
@@ -95,7 +95,7 @@ def h_raman_lumped(ctx, method, order, pumps):
     l2 = ctx.real('lumped2_lin', lo=0.1, hi=1, hi_strict=True)
     el = {'uid': 'f', 'type': 'Fiber', 'type_variety': 'SSMF',
           'params': {'length': 40.0, 'length_units': 'km', 'loss_coef': 0.2, 'att_in': 0, 'con_in': 0, 'con_out': 0,
-                     'lumped_losses': [{'position': 10.0, 'loss': 1.0}, {'position': 25.0, 'loss': 2.0}]}}
+                     'lumped_losses': [{'position': positions[0], 'loss': 1.0}, {'position': positions[1], 'loss': 2.0}]}}
     if pumps:
         el['type'] = 'RamanFiber'
         el['operational'] = {'temperature': 283, 'raman_pumps': [{'power': 0.2, 'frequency': 205e12,
@@ -134,7 +134,7 @@ def h_raman_lumped(ctx, method, order, pumps):
             # Euler integration: compare with the same integration without lumped losses (ratio must be l1*l2)
             n_steps = int(40e3 / 5e3)
             base = 1.0
-            zs = sorted(set(list(np.arange(0, 40e3, 5e3)) + [40e3, 10e3, 25e3]))
+            zs = sorted(set(list(np.arange(0, 40e3, 5e3)) + [40e3, positions[0] * 1e3, positions[1] * 1e3]))
             for a, b in zip(zs[:-1], zs[1:]):
                 base *= (1 - alpha[i] * (b - a))
             ctx.prove(f'raman_on:{method}:each_lumped_loss_once[{i}]', approx(total, l1 * l2 * base, 1e-9))
@@ -156,4 +156,10 @@ def jobs(tier):
     for method, order in (('perturbative', 1), ('perturbative', 2), ('numerical', 1)):
         js.append(dict(name=f'H5c:raman_on_zero_coupling:{method}:order{order}', fn='h_raman_lumped',
                        params=dict(method=method, order=order, pumps=False), cost=20))
+        # lumped losses off the solver grid (one inside the first solver step): non-uniform integration steps
+        js.append(dict(name=f'H5c:raman_on_zero_coupling:{method}:order{order}:offgrid_lumped', fn='h_raman_lumped',
+                       params=dict(method=method, order=order, pumps=False, positions=(0.02, 12.5)), cost=20))
+    # latency adds linearly over the spans auto-design creates from a long fibre (sym length; shared with C08)
+    js.append(dict(name='H5d:latency_after_split', module='harness.c08', fn='h_split', params=dict(max_km=150, padding=10), cost=30,
+                   witness_every=1))
     return js
